@@ -19,7 +19,12 @@ def strategy():
     the examples half-built (entropy buffer overrun) and lands on the first alternative
     2-3 times more often than designed; nothing is shrunk by hyp_run anyway (failures
     are delta-debugged on the program)."""
-    return st.randoms(use_true_random=True)
+    import random
+    salt = core.CASE_SALT[0]
+    # Hypothesis' first example is always the minimal one (seed 0): the salt (a function
+    # of VERIF_SEED and the shard index, set by lv.worker) keeps the 16 shards from all
+    # starting with the same program
+    return st.integers(0, 2 ** 64 - 1).map(lambda x: random.Random(x ^ salt))
 
 
 def expected_rows(ev, prog, pred):
